@@ -10,8 +10,13 @@
 (*   directory, then per table the body and, if needed, the padding.       *)
 (*   WStep   one call: the destination accepts part of the chunk           *)
 (*           ("exact": everything up to byte k, "atomic": the chunk or     *)
-(*           nothing, "short": any shorter amount), the code adds the      *)
-(*           reported count and returns at the first error                 *)
+(*           nothing, "short": any shorter amount; "eager": like exact,    *)
+(*           but the call that consumes the k-th byte already reports the  *)
+(*           failure, TOGETHER WITH ITS FULL COUNT when it ends exactly at *)
+(*           k -- io.Writer allows (len(p), err); "once" / "eonce": exact  *)
+(*           / eager, but the destination fails one call only and works    *)
+(*           again afterwards), the code adds the reported count and       *)
+(*           returns at the first error                                    *)
 (*   WReturn all chunks written                                            *)
 (* Reader side (header/tables.go:58-163, read.go:62-75,                    *)
 (* header/tables.go:177-192):                                              *)
@@ -41,7 +46,7 @@ EXTENDS Integers, Sequences, FiniteSets, TLC, SequencesExt
 
 CONSTANTS MaxTables,  \* layouts have 1..MaxTables tables
           MaxLen,     \* table lengths 0..MaxLen
-          WModes,     \* subset of {"exact", "atomic", "short"}
+          WModes,     \* subset of {"exact", "atomic", "short", "eager", "once", "eonce"}
           RModes,     \* subset of {"trunc", "failat", "strunc", "sfail"}
           Chunk,      \* tables are read in pieces of at most Chunk bytes
           Probe       \* BOOLEAN: the reader probes the last byte of the last table
@@ -56,8 +61,9 @@ VARIABLES side,   \* "w" | "r"
           err,    \* the call returned / will return an error
           hit,    \* an access of this run failed (destination or source reported an error)
           done,
-          loaded  \* reader: streaming source already read into memory
-vars == <<side, lens, mode, k, need, pc, acc, n, err, hit, done, loaded>>
+          loaded, \* reader: streaming source already read into memory
+          healed  \* writer: a fail-once destination has had its failure
+vars == <<side, lens, mode, k, need, pc, acc, n, err, hit, done, loaded, healed>>
 
 Pad4(x) == 4 * ((x + 3) \div 4)
 Min2(a, b) == IF a < b THEN a ELSE b
@@ -94,12 +100,17 @@ Init == /\ lens \in Layouts
         /\ k \in 0..Total
         /\ need \in (IF side = "w" THEN {<<>>} ELSE [1..NT -> {"dec", "raw", "skip"}])
         /\ pc = 1 /\ acc = 0 /\ n = 0 /\ err = FALSE /\ hit = FALSE /\ done = FALSE /\ loaded = FALSE
+        /\ healed = FALSE
 
 ---------------------------------------------------------------------------
 (* the destination: how many of m offered bytes it accepts, and whether it reports an error *)
+Eager == mode \in {"eager", "eonce"}
+Once  == mode \in {"once", "eonce"}
 Accepts(m) == LET room == k - acc IN
-  IF m <= room THEN {<<m, FALSE>>}
-  ELSE CASE mode = "exact"  -> {<<room, TRUE>>}
+  IF healed THEN {<<m, FALSE>>}
+  ELSE IF Eager THEN (IF m > 0 /\ m >= room THEN {<<Min2(m, room), TRUE>>} ELSE {<<m, FALSE>>})
+  ELSE IF m <= room THEN {<<m, FALSE>>}
+  ELSE CASE mode \in {"exact", "once"} -> {<<room, TRUE>>}
          [] mode = "atomic" -> {<<0, TRUE>>}
          [] mode = "short"  -> {<<a, TRUE>> : a \in 0..room}
 
@@ -107,13 +118,14 @@ WStep == /\ side = "w" /\ ~done /\ pc <= Len(WPlan)
          /\ \E r \in Accepts(WPlan[pc]) :
               /\ acc' = acc + r[1]
               /\ n' = n + r[1]                    \* the code adds the count the destination reports
+              /\ healed' = (healed \/ (r[2] /\ Once))
               /\ IF r[2] THEN err' = TRUE /\ hit' = TRUE /\ done' = TRUE /\ pc' = pc
                          ELSE pc' = pc + 1 /\ UNCHANGED <<err, hit, done>>
          /\ UNCHANGED <<side, lens, mode, k, need, loaded>>
 
 WReturn == /\ side = "w" /\ ~done /\ pc > Len(WPlan)
            /\ done' = TRUE
-           /\ UNCHANGED <<side, lens, mode, k, need, pc, acc, n, err, hit, loaded>>
+           /\ UNCHANGED <<side, lens, mode, k, need, pc, acc, n, err, hit, loaded, healed>>
 
 ---------------------------------------------------------------------------
 Streaming == mode \in {"strunc", "sfail"}
@@ -122,7 +134,7 @@ RAll == /\ side = "r" /\ ~done /\ Streaming /\ ~loaded
         /\ IF mode = "sfail" /\ k < Total
              THEN err' = TRUE /\ hit' = TRUE /\ done' = TRUE /\ loaded' = loaded
              ELSE loaded' = TRUE /\ UNCHANGED <<err, hit, done>>
-        /\ UNCHANGED <<side, lens, mode, k, need, pc, acc, n>>
+        /\ UNCHANGED <<side, lens, mode, k, need, pc, acc, n, healed>>
 
 \* does the access <<o, l, class>> fail?  (after RAll the memory copy has Min(k, Total) bytes)
 \* A failing source returns an error to whoever reads; at the end of a cut file a raw copy just ends.
@@ -132,11 +144,11 @@ Fails(a)  == Beyond(a) /\ (mode = "failat" \/ a[3] = "dec")
 RStep == /\ side = "r" /\ ~done /\ (Streaming => loaded) /\ pc <= Len(RPlan)
          /\ IF Fails(RPlan[pc]) THEN err' = TRUE /\ hit' = TRUE /\ done' = TRUE /\ pc' = pc
                                 ELSE pc' = pc + 1 /\ UNCHANGED <<err, hit, done>>
-         /\ UNCHANGED <<side, lens, mode, k, need, acc, n, loaded>>
+         /\ UNCHANGED <<side, lens, mode, k, need, acc, n, loaded, healed>>
 
 RReturn == /\ side = "r" /\ ~done /\ (Streaming => loaded) /\ pc > Len(RPlan)
            /\ done' = TRUE
-           /\ UNCHANGED <<side, lens, mode, k, need, pc, acc, n, err, hit, loaded>>
+           /\ UNCHANGED <<side, lens, mode, k, need, pc, acc, n, err, hit, loaded, healed>>
 
 Next == WStep \/ WReturn \/ RAll \/ RStep \/ RReturn
 Spec == Init /\ [][Next]_vars
@@ -145,12 +157,13 @@ Spec == Init /\ [][Next]_vars
 (* The property *)
 WD == side = "w" /\ done
 RD == side = "r" /\ done
-\* a write fails exactly if the destination cannot take the whole file
-WErrIffShort   == WD => (err <=> k < Total)
+\* a write fails exactly if the destination cannot take the whole file; an eager destination
+\* reports its failure for every k <= Total (at k = Total with all bytes accepted)
+WErrIffShort   == WD => (err <=> (k < Total \/ Eager))
 \* the reported count is what the destination accepted; on success it is the file length
 WCountAccepted == WD => n = acc /\ acc <= k
 WSuccessTotal  == (WD /\ ~err) => n = Total
-WExactAccepts  == (WD /\ mode = "exact") => acc = Min2(k, Total)
+WExactAccepts  == (WD /\ mode \in {"exact", "eager", "once", "eonce"}) => acc = Min2(k, Total)
 \* an error of the destination/source is never swallowed, and never invented
 ErrIffHit      == done => (err <=> hit)
 \* a file cut anywhere inside its table data is rejected, through ReaderAt and through Reader
